@@ -70,7 +70,7 @@ func (r *rs) r6() {
 			seq(fn, g, 2, flow.Step{Name: "write payload", Is: flow.CallOn(g, wcall(tc.method, flow.IsObj(info, p)))}, crlf(fn, g))
 		}
 	}
-	encodeString, itos := r.method("encoder", "encodeString"), c.Func(pkg, "", "itos")
+	encodeString, itos := r.method("encoder", "encodeString"), r.inl.Fn(c.Func(pkg, "", "itos"))
 	if fn := r.method("encoder", "encodeInt"); fn != nil && encodeString != nil && itos != nil {
 		n, _ := pat.Expr("_e.encodeString(itos(_v))").Find(info, fn.Decl.Body, pat.Binds{"_v": fn.Decl.Type.Params.List[0].Names[0]})
 		if n != nil {
@@ -88,7 +88,7 @@ func (r *rs) r6() {
 			return core.CalleeFunc(info, call) == encodeInt.Obj && len(call.Args) == 1 && lenOf(info, g.Body, call.Args[0]) == v
 		})}
 	}
-	if fn := r.method("encoder", "encodeBulkBytes"); fn != nil {
+	if fn := r.flatMethod("encoder", "encodeBulkBytes"); fn != nil {
 		g := cfgq.Of(c.Program, fn)
 		p := param(info, fn, 0)
 		seq(fn, g, 2, lenStep(g, p), flow.Step{Name: "write payload", Is: flow.CallOn(g, wcall("Write", flow.IsObj(info, p)))}, crlf(fn, g))
@@ -122,7 +122,7 @@ func (r *rs) r6() {
 		} else {
 			// the loop may run zero times, so only the order is required: count line first
 			ls := lenStep(g, p)
-			ep, _ := g.Find(elem)
+			ep, _ := flow.PointOf(g, elem)
 			ok, w := g.Dominated(ep, ls.Is)
 			if len(g.Points(ls.Is)) != 1 {
 				c.Undecidedf("R6.grammar", "encodeArray/sequence", fn.Decl.Pos(), "cannot find the single encodeInt(len(a)) call")
@@ -138,7 +138,7 @@ func (r *rs) r6() {
 
 func (r *rs) r7() {
 	c, info := r.c, r.info
-	fn := c.Func(pkg, "", "itos")
+	fn := r.inl.Fn(c.Func(pkg, "", "itos"))
 	if fn == nil {
 		return
 	}
@@ -161,7 +161,7 @@ func (r *rs) r7() {
 		c.Undecidedf("R7.bias", "itos/lookup", def.Pos(), "table, bias or index variable not recognised")
 		return
 	}
-	rp, _ := g.Find(ret)
+	rp, _ := flow.PointOf(g, ret)
 	ok1, w1 := flow.OnlyVia(g, rp, func(f cfgq.Fact) bool { return flow.CmpIs(info, f, flow.IsObj(info, nobj), token.GEQ, 0) })
 	c.Check("R7.bias", "itos/lower-guard", ret.Pos(), ok1, "the table lookup must be guarded by n >= 0: integers below the table's range would index out of range", w1...)
 	ok2, w2 := flow.OnlyVia(g, rp, func(f cfgq.Fact) bool {
